@@ -39,10 +39,17 @@ Definition kind_index (k : kind) : N :=
 
 Definition kind_eqb (a b : kind) : bool := kind_index a =? kind_index b.
 
-(** Error classes of the harness ([app::verif::error_class]). *)
+(** Error classes of the harness ([app::verif::error_class]).  [ENonFatal e]: an error of class
+    [e] which the code reports as [CheckedActionExecutionError::NonFatalExecution] (a failing
+    IbcRelay action once the Blackburn upgrade is active): the transaction stays in the block
+    with a non-zero result code instead of being dropped from it. *)
 Inductive eclass :=
 | ENonce | EAuth | EOverflow | EDisabled | EExists | EMissing | EFeeAsset | EFunds | EPrefix
-| EBridge | EDecode | EChainId | EOther.
+| EBridge | EDecode | EChainId | EOther
+| ENonFatal (e : eclass).
+
+Definition is_nonfatal (e : eclass) : bool :=
+  match e with ENonFatal _ => true | _ => false end.
 
 Inductive result (A : Type) : Type :=
 | Ok (a : A)
@@ -298,7 +305,10 @@ Inductive action :=
 | ASudoChange (to : addr)
 | AIbcSudo (to : addr)
 | ARelayer (add : bool) (x : addr)
-| AValUpdate (key : addr) (power : N).
+| AValUpdate (key : addr) (power : N)
+| AIbcRelayFailing (k : N).
+  (* an IbcRelay message (client upgrade for the non-existing client number [k]) which passes the
+     stateless checks and fails [check_and_execute] in every state *)
 
 Definition action_kind (a : action) : kind :=
   match a with
@@ -316,6 +326,7 @@ Definition action_kind (a : action) : kind :=
   | AIbcSudo _ => KIbcSudo
   | ARelayer _ _ => KRelayer
   | AValUpdate _ _ => KValUpdate
+  | AIbcRelayFailing _ => KIbcRelay
   end.
 
 (** fees/fee_handler.rs: fee_asset() and variable_component(). *)
@@ -449,6 +460,8 @@ Definition mutable_checks (s : state) (signer : addr) (a : action) : result unit
        check (match validators s key with Some _ => true | None => false end) else EMissing;
        Ok tt)
     else Ok tt
+  | AIbcRelayFailing _ =>
+    check relayer s signer else EAuth; Ok tt
   end.
 
 (** CheckedXxx::new: immutable checks, captured data, then the mutable checks. *)
@@ -599,10 +612,13 @@ Definition execute_action (s : state) (signer : addr) (tx : txid) (idx : N) (ca 
                | None => saturating_add U64_MAX (valcount s) 1
                end in
       Ok (set_validators s (upd1 (validators s) key (Some power)) c)
+  | AIbcRelayFailing _, _ => Err EOther      (* check_and_execute: the client does not exist *)
   | _, _ => Err EOther     (* capture of the wrong shape: never built by [construct_action] *)
   end.
 
-(** CheckedAction::pay_fees_and_execute. *)
+(** CheckedAction::pay_fees_and_execute.  For IbcRelay an error of [execute] (the relayer check
+    or check_and_execute; not an error of pay_fee) is fatal before the Blackburn upgrade and
+    non-fatal once the upgrade's AllowIbcRelayToFail change is stored. *)
 Definition pay_fees_and_execute (s : state) (signer : addr) (tx : txid) (idx : N)
   (ca : checked_action) : result (state * list fee_event) :=
   let a := fst ca in
@@ -610,6 +626,11 @@ Definition pay_fees_and_execute (s : state) (signer : addr) (tx : txid) (idx : N
   let '(s1, evs) := r in
   match a with
   | ARollup _ _ _ => Ok (s1, evs)
+  | AIbcRelayFailing _ =>
+    match execute_action s1 signer tx idx ca with
+    | Ok s2 => Ok (s2, evs)
+    | Err e => Err (if blackburn s1 then ENonFatal e else e)
+    end
   | _ => do s2 <- execute_action s1 signer tx idx ca; Ok (s2, evs)
   end.
 
@@ -684,7 +705,9 @@ Inductive outcome :=
 | OutOk (evs : list fee_event)
 | OutErr (e : eclass).
 
-(** App::execute_transaction: the delta is applied on success and dropped on error. *)
+(** App::execute_transaction: the delta is applied on success and dropped on error - on every
+    error, [OutErr (ENonFatal _)] included (finalize_block then still lists the transaction,
+    with a non-zero code). *)
 Definition exec_tx (s : state) (c : checked_tx) : state * outcome :=
   match exec_tx_inner s c with
   | Ok (s', evs) => (s', OutOk evs)
@@ -726,6 +749,11 @@ Definition op_escrow (s : state) (c : chan) (a : asset) (v : N) (trace : bool) :
   if trace then set_known_assets s1 (upd1 (known_assets s1) a true) else s1.
 Definition op_ibcchan (s : state) (c : chan) : state :=
   set_channels s (upd1 (channels s) c true).
+(** `setnonce`: a direct write of an account's nonce.  Deliberately NOT an [op] of the histories
+    below: no chain operation can do this (it only puts the harness' chain into a boundary
+    state such as nonce = u32::MAX before a history starts). *)
+Definition op_setnonce (s : state) (x : addr) (n : N) : state :=
+  set_nonce s (upd1 (nonce s) x n).
 
 (** One step of a history of the working state. *)
 Inductive op :=
